@@ -384,10 +384,10 @@ func (r *c25Run) classify(ws []*big.Int, thr int) {
 	}
 }
 
-// eval runs one work vector: the full transaction construction on every batch
-// node of the context (all=true) or on the first one only, and the
-// distribution function itself with every kernel base.
-func (r *c25Run) eval(x *c25Ctx, mode int, vals []uint64, all bool) {
+// eval runs one work vector: the full transaction construction on the batch
+// nodes of the context selected by the bit mask `builds`, and the distribution function itself
+// with every kernel base.
+func (r *c25Run) eval(x *c25Ctx, mode int, vals []uint64, builds uint) {
 	c := r.c
 	n := len(vals)
 	works := make([][2]uint64, n)
@@ -405,8 +405,8 @@ func (r *c25Run) eval(x *c25Ctx, mode int, vals []uint64, all bool) {
 	}
 	cs := c25Case{N: n, Mode: c25Modes[mode], Values: append([]uint64{}, vals...), Ready: [2]int{n, n}}
 	for i, b := range x.b {
-		if i > 0 && !all {
-			break
+		if builds&(1<<uint(i)) == 0 {
+			continue
 		}
 		b.st.prev = works
 		cs.Batch = b.batch
@@ -1042,13 +1042,20 @@ func TestMC_C25(t *testing.T) {
 	defer debug.SetGCPercent(debug.SetGCPercent(400))
 	c.SetRule("schedule: every batch 1..109500 (thorough: plus first/last batch of every year up to 10001) and every (old,batch) pair with batch-old<=40 inside a window of +-W batches (W=20 quick, 40 thorough) around batch 0+W, the legacy ending 1706 and every year boundary of the positive schedule incl. the boundary into the zero tail (quick: boundaries 1..60, every 6th later one and the last three). " +
 		"distribution: n=7: every assignment of one menu value per node using at most 3 distinct values of the 8-value menu (= all 3^7 assignments of every one of the C(8,3) sub-menus, each vector evaluated once); n in {8,9,10,25,50}: every vector that is constant (each menu value) except on nodes {0,n/2,n-1}, which take every value of the deviant menu. " +
-		"Each vector runs under each (lead,sign) mapping mode (lead=(v,0) sign=(0,v) both=(v,v) alt=even nodes lead, odd nodes sign, mix=node i%4: (v,0) leader only,(0,v) signer only,(v,v),(v,2v); quick: mix only) through distributeKernelMintByWorks with 4 kernel bases and through buildUniversalMintTransaction at the batch amounts of 1707, 2000 and 60000 (quick: n=7 vectors with exactly 3 distinct values are built at 1707 only). history: for every gap j in {0,1,2,5} skipped batches x 6 batch positions (from the legacy ending, inside a year, straddling 1825 and 2190, right after 1825, 60000): fresh evaluation, real build, real lock+finalize, then re-evaluation and rebuild in validate-only mode. A case is distinct by (n, mode, vector), (old,batch), batch or (gap,batch)")
+		"Each vector runs under each (lead,sign) mapping mode (lead=(v,0) sign=(0,v) both=(v,v) alt=even nodes lead, odd nodes sign, mix=node i%4: (v,0) leader only,(0,v) signer only,(v,v),(v,2v); quick: mix only) through distributeKernelMintByWorks with 4 kernel bases and through buildUniversalMintTransaction at the batch amounts of 1707, 2000 and 60000 (quick: n=7 vectors with exactly 3 distinct values go through distributeKernelMintByWorks only; all n=7 vectors with <=2 distinct values and all n>7 vectors are also built at the three batches, n>=25 at 1707 and 60000 only). history: for every gap j in {0,1,2,5} skipped batches x 6 batch positions (from the legacy ending, inside a year, straddling 1825 and 2190, right after 1825, 60000): fresh evaluation, real build, real lock+finalize, then re-evaluation and rebuild in validate-only mode. A case is distinct by (n, mode, vector), (old,batch), batch or (gap,batch)")
 	c.Assume("the store wrapper answers ListNodeWorks (mint day and the day before), ListAggregatedRoundSpaceCheckpoints and ReadNodeRoundSpacesForBatch from the enumerated vector; every other store call reaches the real Badger store (the wrapper is tied to the real WriteRoundWork / WriteRoundSpaceAndState path once per n)",
 		"memberships n>7 are installed into the node's state lists (as kernel/removal_consensus_test.go does), not built by pledge/accept transactions",
 		"a node's work is 1.2*lead+sign (the documented weighting); the batch amount is mintBatchSize(batch) because the last finalized mint in the real store is batch-1",
 		"aggregator readiness (enough lead work today, matching space checkpoints) and valid >= threshold are the code's own precondition for minting; refusals outside it are outcomes, not violations")
 
+	t0 := time.Now()
+	phases := map[string]float64{}
+	phase := func(name string) {
+		phases[name] = float64(int(time.Since(t0).Seconds()*10)) / 10
+		c.Set("phase_end_wall_s", phases)
+	}
 	lastPositive := c25Schedule(c)
+	phase("1-schedule")
 	complete := !c.Expired("schedule")
 	// coverage / vacuity guards only speak about a run that was not cut short
 	guard := func(cond bool, format string, args ...any) {
@@ -1101,6 +1108,7 @@ func TestMC_C25(t *testing.T) {
 			x.close()
 		}
 	}()
+	phase("2-fixtures")
 	var amounts []string
 	r.bases = []common.Integer{common.NewInteger(10000)}
 	for _, bn := range batches {
@@ -1144,6 +1152,7 @@ func TestMC_C25(t *testing.T) {
 			"history sequences did not complete: single %d multi %d", c.OutcomeCount("history:single-batch-validated"), c.OutcomeCount("history:multi-batch-validated"))
 	}
 
+	phase("3-tie+history")
 	// readiness of the aggregators (the code's own precondition): first k nodes
 	// have lead work today, first j nodes have a space checkpoint at the batch
 	{
@@ -1208,6 +1217,7 @@ func TestMC_C25(t *testing.T) {
 		b.install(7)
 	}
 
+	phase("4-readiness+tail")
 	// n > 7: constant background except on three nodes
 	for _, n := range ns {
 		for _, x := range ctxs {
@@ -1236,7 +1246,11 @@ func TestMC_C25(t *testing.T) {
 					vals[i] = menu[j.bg]
 				}
 				vals[pos[0]], vals[pos[1]], vals[pos[2]] = deviants[j.d0], deviants[d[0]], deviants[d[1]]
-				r.eval(ctxs[k], j.mode, vals, true)
+				builds := uint(1<<uint(len(batches))) - 1
+				if !c.Thorough() && n >= 25 {
+					builds = 1 | 1<<uint(len(batches)-1) // quick: first and last batch amount
+				}
+				r.eval(ctxs[k], j.mode, vals, builds)
 				c.Add(fmt.Sprintf("vectors_n%d", n), 1)
 				return !c.Expired("n>7 vectors")
 			})
@@ -1248,6 +1262,7 @@ func TestMC_C25(t *testing.T) {
 		}
 	}
 
+	phase("5-n>7")
 	// n = 7: every assignment over every 3-value sub-menu
 	type job struct {
 		mode  int
@@ -1286,11 +1301,16 @@ func TestMC_C25(t *testing.T) {
 			for i, di := range d {
 				vals[i] = menu[sub[di]]
 			}
-			r.eval(ctxs[k], j.mode, vals, c.Thorough() || bits.OnesCount(used) < 3)
+			builds := uint(1<<uint(len(batches))) - 1
+			if !c.Thorough() && bits.OnesCount(used) == 3 {
+				builds = 0 // quick: distribution function only (all 4 kernel bases)
+			}
+			r.eval(ctxs[k], j.mode, vals, builds)
 			c.Add(fmt.Sprintf("vectors_n7_%d_distinct_values", bits.OnesCount(used)), 1)
 			return !c.Expired("n=7 vectors")
 		})
 	}) && complete
+	phase("6-n=7")
 	complete = complete && !c.Expired("end")
 	for _, x := range ctxs {
 		for _, b := range x.b {
